@@ -29,7 +29,7 @@ ASSUMPTIONS = [
     'binned wavelength width = 10000 * wavenumber width / centre^2 (first-order conversion at the bin centre, as used for observations)',
     'the reload clause compares constructor-level parameters that the writers store; opacities stay registered in the caches between write and reload',
 ]
-REQUIRED = {'native-points-on-bin-edges': 0.03, 'part:retrieval': 0.04, 'part:dict': 0.08, 'part:spectrum': 0.08, 'part:model': 0.08}
+REQUIRED = {'dict:array-0d': 0.05, 'dict:array-strided': 0.03, 'native-points-on-bin-edges': 0.03, 'part:retrieval': 0.04, 'part:dict': 0.08, 'part:spectrum': 0.08, 'part:model': 0.08}
 # coverage-guided extra (thorough tier): pure-Python taurex modules on this property's path, instrumented by atheris
 FUZZ = {'include': ['taurex.output', 'taurex.util.output', 'taurex.util.hdf5', 'taurex.util.util', 'taurex.binning'], 'runs': 8000, 'workers': 4}
 
@@ -43,7 +43,7 @@ def _leaf():
         num.map(lambda v: ['float', v]), S.ints(-2 ** 62, 2 ** 62).map(lambda v: ['int', v]),
         st.booleans().map(lambda v: ['bool', v]), num.map(lambda v: ['npfloat', v]),
         S.ints(-2 ** 62, 2 ** 62).map(lambda v: ['npint', v]),
-        st.tuples(st.sampled_from(['f', 'i']), st.lists(S.ints(0, 3), max_size=3),
+        st.tuples(st.sampled_from(['f', 'i', 's', 'f']), st.one_of(st.just([]), st.lists(S.ints(0, 3), max_size=3)),
                   st.lists(st.floats(-1e6, 1e6), min_size=27, max_size=27)).map(lambda t: ['array', t[0], t[1], t[2]]),
         ASCII.map(lambda v: ['str', v]),
         st.lists(num, max_size=5).map(lambda v: ['numlist', v]),
@@ -126,6 +126,12 @@ def realise(node):
         _, dt, shape, vals = node
         n = int(np.prod(shape)) if shape else 1
         a = np.array(vals[:n] if n else [], dtype=float).reshape(shape)
+        if dt == 's':
+            # the same numbers as a non-contiguous view (every other column of a wider array, or a transpose)
+            if a.ndim >= 1 and a.shape[-1] >= 1:
+                wide = np.repeat(a, 2, axis=-1)
+                a = wide[..., ::2]
+            return a
         return a.astype(np.int64) if dt == 'i' else a
     if k == 'str':
         return str(node[1])
@@ -201,7 +207,18 @@ def check_dict(out, c, tmp):
     import h5py
     from taurex.output.hdf5 import HDF5Output
     tree = c['tree']
+    # every stored dictionary also holds a 0-d array and a non-contiguous view (their share among drawn leaves is a few
+    # per cent at best): values taken from the case so that they vary
+    import copy
+    tree = copy.deepcopy(tree)
+    seedv = [float(len(k_)) + 0.25 * i for i, k_ in enumerate(sorted(tree[1]))] + [1.5, -2.25, 3.0]
+    vals27 = [seedv[i % len(seedv)] * (1 + i) for i in range(27)]
+    tree[1].setdefault('zeroDimArr', ['array', 'f' if len(tree[1]) % 2 else 'i', [], vals27])
+    tree[1].setdefault('stridedArr', ['array', 's', [2, 3], vals27])
     obj = realise(tree)
+    for kd in ('array-0d', 'array-strided'):
+        if kd in collect_kinds(tree):
+            out.cls('dict:' + kd)
     fn = os.path.join(tmp, 'd.h5')
     with HDF5Output(fn) as o:
         cut(out, 'store_dictionary@%s' % kinds_tag(tree), o.store_dictionary, obj, 'Results')
@@ -224,6 +241,10 @@ def collect_kinds(node, acc=None):
             collect_kinds(v, acc)
     elif node[0] == 'ragged' and len({len(x) for x in node[1]}) > 1:
         acc.add('ragged-uneven')
+    elif node[0] == 'array' and len(node[2]) == 0:
+        acc.add('array-0d')
+    elif node[0] == 'array' and node[1] == 's':
+        acc.add('array-strided')
     return acc
 
 
@@ -285,6 +306,13 @@ def check_spectrum(out, c, tmp):
             out.fail('self-describing@native,' + kind + sfx, 'native grid / spectrum are not the model result')
         if not close(d['native_wlgrid'], 10000.0 / native, rtol=1e-15):
             out.fail('self-describing@native_wlgrid,' + kind + sfx, 'native wavelength grid is not 10000/wavenumber')
+        # the native bin widths stored next to the native grids are those of the same grids (edges at the mid-points)
+        if len(native) >= 2 and 'native_wnwidth' in d:
+            out.applies('native-widths')
+            if not close(d['native_wnwidth'], midpoint_widths(native)[1], rtol=1e-12):
+                out.fail('native-widths@wavenumber,' + kind + sfx, 'native_wnwidth is not the width of the native wavenumber bins')
+            if 'native_wlwidth' in d and not close(d['native_wlwidth'], midpoint_widths(10000.0 / native)[1], rtol=1e-12):
+                out.fail('native-widths@wavelength,' + kind + sfx, 'native_wlwidth is not the width of the native wavelength bins')
         want_tau_native = c['size'] == 'heavy'
         want_tau_binned = c['size'] in ('heavy', 'light') and kind != 'native'
         out.applies('optical-depth-presence')
@@ -310,6 +338,19 @@ def check_spectrum(out, c, tmp):
         both_nan = np.isnan(direct) & np.isnan(stored) if stored.shape == direct.shape else False      # a bin holding no native point
         if stored.shape != direct.shape or not close(np.where(both_nan, 0.0, stored), np.where(both_nan, 0.0, direct), rtol=1e-12, atol=1e-300):
             out.fail('binned-spectrum@binner,' + kind + sfx, 'stored binned spectrum is not the binner applied to the stored native spectrum')
+        if 'binned_tau' in d:
+            # the binned optical depths are the same binner applied to the optical-depth rows of the same result
+            out.applies('binned-tau')
+            tau_rows = np.asarray(res_[2], dtype=float)
+            with np.errstate(all='ignore'):
+                direct_t = np.asarray(b.bindown(native, tau_rows)[1], dtype=float)
+            stored_t = np.asarray(d['binned_tau'], dtype=float)
+            nan_t = np.isnan(direct_t) & np.isnan(stored_t) if stored_t.shape == direct_t.shape else False
+            if stored_t.shape != direct_t.shape or not close(np.where(nan_t, 0.0, stored_t), np.where(nan_t, 0.0, direct_t), rtol=1e-12, atol=1e-300):
+                out.fail('binned-tau@' + kind + sfx, 'stored binned optical depths %s are not the binner applied to the optical depths %s'
+                         % (stored_t.shape, direct_t.shape))
+            if 'native_tau' in d and not np.array_equal(np.asarray(d['native_tau']), np.asarray(res_[2])):
+                out.fail('binned-tau@native,' + kind + sfx, 'native_tau is not the optical-depth array of the result')
         if kind.startswith('flux'):
             e, nw = midpoint_widths(native)
             for i in range(nb):
